@@ -57,8 +57,12 @@ Definition d_fault (t : tree) : option (option (nat * string)) :=
   match t with
   | L [] => Some None
   | L [I k; A s] => Some (Some (Z.to_nat k, s))
+  | L [I k; A s; A "restyle"] => Some (Some (Z.to_nat k, s))
   | _ => None
   end.
+(* a replacement line that only respells one number (same value): judged like a valid text *)
+Definition is_restyle (t : tree) : bool :=
+  match t with L [_; _; A "restyle"] => true | _ => false end.
 Fixpoint replace_nth (k : nat) (s : string) (l : list string) : list string :=
   match l, k with
   | [], _ => []
@@ -318,7 +322,7 @@ Definition run_C17 (case : tree) : tree :=
           if negb (forallb (fun ab => fst ab =? snd ab) (combine (apply_fault f' (render ly' M)) ls)
                    && Nat.eqb (List.length ls) (List.length (apply_fault f' (render ly' M))))
           then badcase "C17: the lines are not render layout M"
-          else judge_load M (match f' with Some _ => true | None => false end) ls r
+          else judge_load M (match f' with Some _ => negb (is_restyle f) | None => false end) ls r
       | _, _, _, _ => badcase "C17: input"
       end
   | _ => badcase "C17: unknown op"
